@@ -28,3 +28,25 @@ Example C05_example_final_state :
   [(TCtl, mkE 1000 1000 m600 false); (TDir, mkE 1000 1000 m700 true)].
 Proof. exact ex_final_state. Qed.
 Print Assumptions C05_example_final_state.
+
+(* whose requests reach msg_process.  [LForeign tr filt] = a process that is not the connection's peer sends a
+   well-formed request to the connection's request address (see IpcAdmitModel.v); [foreign_blocked] = it cannot get
+   through: shm transport, or socket transport with fixes/C05-sock-request-sender-check.patch.  Any interleaving, any
+   number of foreign datagrams and of the peer's own sends: msg_process is never invoked for a foreign datagram, and at
+   most once per request the connection's own peer sent *)
+Theorem C05_msg_only_from_own_peer : forall en l k,
+  forallb foreign_blocked (proj k l) = true ->
+  ~ In EvMsgForeign (l_log (run en w_empty l k)) /\
+  (nmsg (l_log (run en w_empty l k)) <= npeer_sends (proj k l))%nat.
+Proof. exact own_peer_only_global. Qed.
+Print Assumptions C05_msg_only_from_own_peer.
+
+(* without the sender check the statement is false on the socket transport (known finding C05-sock-dgram-injection /
+   its repair): an accepted peer that sends nothing, one foreign datagram, msg_process runs; with the check, or on
+   shm, the same trace is harmless *)
+Theorem C05_msg_only_from_own_peer_unfiltered_refuted :
+  In EvMsgForeign (l_log (lrun root_env_022 l_empty foreign_witness)) /\ npeer_sends foreign_witness = 0%nat /\
+  ~ In EvMsgForeign (l_log (lrun root_env_022 l_empty (admission_ops Fixed Sock peer_1000 ++ [LForeign Sock true]))) /\
+  ~ In EvMsgForeign (l_log (lrun root_env_022 l_empty (admission_ops Fixed Shm peer_1000 ++ [LForeign Shm false]))).
+Proof. exact foreign_refuted. Qed.
+Print Assumptions C05_msg_only_from_own_peer_unfiltered_refuted.
